@@ -100,12 +100,12 @@ INVARIANT ConformsOut
 FD_HYP = ["HypReps", "HypPermSym", "HypTransInv", "HypPTrans", "HypSpaceGroup", "HypOpsSpecies", "HypNonTrivial",
           "HypRefAgree", "HypNonSymmetricExpected"]
 FD_MODEL_REQ = ["Sufficient", "Consistent", "CoverAll", "RepsInP2S", "SpanAtoms", "PlusMinusAtoms",
-                "FCExactSolved", "FCExactFull", "FCExactCompact"]
+                "FCExactSolved", "FCExactFull", "FCExactCompact", "Homogeneous"]
 FD_IMPL = ["ImplNoError", "ImplCoverAll", "ImplMapAtoms", "ImplSiteSound", "ImplSpan", "ImplPlusMinus", "ImplP2S",
            "ImplFCExact", "ImplConvertExact"]
 FD_CONF = ["ConformsReps", "ConformsNumOps", "ConformsSite"]
 
-CFG_FDTRACE = ("SPECIFICATION Spec\nCONSTANTS\n Sessions <- MCSessions\n PMs <- MCPMs\n Diags <- MCDiags\n Syms <- MCSyms\n Trigs <- MCTrigs\n"
+CFG_FDTRACE = ("SPECIFICATION Spec\nCONSTANTS\n Sessions <- MCSessions\n PMs <- MCPMs\n Diags <- MCDiags\n Syms <- MCSyms\n Trigs <- MCTrigs\n Scales <- MCScales\n"
                "CHECK_DEADLOCK FALSE\n" + "".join("INVARIANT %s\n" % i for i in FD_HYP + FD_MODEL_REQ + FD_IMPL + FD_CONF))
 
 F_TR = [[0, 0, 0], [0, 1, 1], [1, 0, 1], [1, 1, 0]]
@@ -121,14 +121,16 @@ def sessions_for(tier):
     """dicts: entry, model, S, prim ('P'|'F'|'I'|'A'|'C'|'R'|'auto'), nonsym (non-symmetric 3x3 blocks expected),
     mag ('none'|'ferri'|'afm'), symprec, perturb (Cartesian position noise, kept below symprec)"""
     def X(e, m, S, p, ns=False, **kw):
-        return dict(dict(entry=e, model=m, S=S, pname=p, nonsym=ns, mag="none", symprec=1e-5, perturb=0.0), **kw)
+        return dict(dict(entry=e, model=m, S=S, pname=p, nonsym=ns, mag="none", symprec=1e-5, perturb=0.0, hom=False,
+                         scaled=False), **kw)
 
     q = [
         X("tric", "angle2", D3(2, 1, 1), "P", True),
         X("tric", "angle2", [[1, 1, 0], [0, 1, 0], [0, 0, 2]], "P", True, symprec=1e-3, perturb=1e-4),
-        X("tetab", "angle2", D3(2, 2, 1), "P", True),
+        X("tetab", "angle2", D3(2, 2, 1), "P", True, hom=True, scaled=True),
         X("cscl", "angle1", [[1, 1, 0], [-1, 1, 0], [0, 0, 1]], "P"),
-        X("nacl", "angle1", ID, "F"),
+        X("nacl", "angle1", ID, "F", hom=True, scaled=True),
+        X("scwide", "pair", D3(2, 2, 2), "P", scaled=True),     # spring constants 1 .. 1e6 in one model
         X("naclg", "pair", ID, "auto"),
         X("nacl", "pair", ID, "P"),
         X("bcc", "angle1", D3(2, 1, 1), "I"),
@@ -151,7 +153,9 @@ def sessions_for(tier):
         return q
     t = q + [
         X("naclg", "angle1", D3(2, 2, 1), "F"),
-        X("tric", "angle3", D3(2, 2, 1), "P", True),
+        X("scwide", "pair", D3(3, 3, 3), "P", scaled=True),
+        X("hcp", "angle2", D3(2, 2, 1), "P", hom=True, scaled=True),
+        X("tric", "angle3", D3(2, 2, 1), "P", True, scaled=True),
         X("tric", "angle2", [[1, -1, 1], [0, 2, 0], [-1, 0, 1]], "P", True),
         X("tetab", "angle2", [[1, 1, 0], [-1, 1, 0], [0, 0, 2]], "P"),
         X("cscl", "angle2", D3(2, 2, 2), "P"),
@@ -184,6 +188,9 @@ def sessions_for(tier):
 
 PRIM_ARG = {"P": None, "F": "F", "I": "I", "A": "A", "C": "C", "R": "R", "auto": "auto"}
 ROUTES = ["setter", "dataset", "arg", "file"]      # how the forces reach the solver
+# SCALE: the crystal s*Phi probed at displacement distance d (the solver is linear and homogeneous)
+SCALES = [1e-9, 1e-6, 1e-3, 1.0, 1e3, 1e6]
+SCALE_DISTS = [1e-9, 1e-6, 1e-3, 0.01, 0.3]
 FCCALC = [None, "traditional"]
 
 
@@ -324,8 +331,10 @@ def disp_events_of(symmetry, rows, diag, pm, trig):
     return evs
 
 
-def record_run(real, cell, S, prim, opts, ref_int, symprec=1e-5):
-    """Drive one real session; return the run record for FiniteDifferenceTrace (+ python-side details)."""
+def record_run(real, cell, S, prim, opts, ref_int, symprec=1e-5, scale=1.0):
+    """Drive one real session; return the run record for FiniteDifferenceTrace (+ python-side details).
+    scale: the forces are those of the crystal scale*Phi; the produced arrays are divided by scale before the
+    projection to integers, so the tolerance TOL_PROJ is RELATIVE to the scale."""
     sym, diag, pm, layout, dist, trig, route, fcc = opts
     n = len(cell["atoms"])
     tol = TOL_PROJ
@@ -334,7 +343,7 @@ def record_run(real, cell, S, prim, opts, ref_int, symprec=1e-5):
     run = dict(sym=sym, diag=diag, pm=pm, trig=trig, layout=layout, nops=0, reps=[], mapa=[], site=[], dirs=[], p2s=[], fc=0,
                exact=False, conv=0, convexact=False, err="")
     info = dict(opts=dict(is_symmetry=sym, is_diagonal=diag, is_plusminus=pm, is_trigonal=trig, layout=layout,
-                          distance=dist, forces_route=route, fc_calculator=fcc, symprec=symprec), tol=tol)
+                          distance=dist, forces_route=route, fc_calculator=fcc, symprec=symprec, scale=scale), tol=tol)
     devs = []
     arr = arr2 = None
     try:
@@ -373,17 +382,17 @@ def record_run(real, cell, S, prim, opts, ref_int, symprec=1e-5):
         for d, row in zip(fa, rows):
             v = np.dot(row[1:], lat)
             v = v * dist / np.linalg.norm(v)
-            if d["number"] != row[0] or np.abs(np.array(d["displacement"]) - v).max() > 1e-12 * max(1.0, dist):
+            if d["number"] != row[0] or np.abs(np.array(d["displacement"]) - v).max() > 1e-10 * dist:
                 raise RuntimeError("dataset-mismatch")
             u = np.array(d["displacement"], dtype=float)
             forces.append(-np.einsum("a,jab->jb", u, fc_ref[d["number"]]))
-        forces = np.array(forces)
+        forces = np.array(forces) * scale
         if cell_us is not None:
             # forces of the harmonic crystal for the displaced supercells the object HANDED OUT:
             # u = positions(cell_k) - positions(supercell)
             if len(cell_us) != len(fa):
                 raise RuntimeError("handed-out cells: %d for %d displacements" % (len(cell_us), len(fa)))
-            forces = np.array([-np.einsum("ia,ijab->jb", u, fc_ref) for u in cell_us])
+            forces = np.array([-np.einsum("ia,ijab->jb", u, fc_ref) for u in cell_us]) * scale
         kw = dict(calculate_full_force_constants=(layout == "full"), show_drift=False, fc_calculator=fcc)
         with contextlib.redirect_stdout(io.StringIO()):
             if route == "setter" or route.startswith("cells"):
@@ -406,7 +415,7 @@ def record_run(real, cell, S, prim, opts, ref_int, symprec=1e-5):
                 ph.produce_force_constants(forces=forces, **kw)
             else:
                 ph.produce_force_constants(**kw)
-        fc = np.array(ph.force_constants)
+        fc = np.array(ph.force_constants) / scale
         p2s_real = [int(a) for a in ph.primitive.p2s_map]
         if layout == "full":
             if fc.shape != (n, n, 3, 3):
@@ -481,14 +490,26 @@ def gen_sessions(ctx, only=None):
         nh = 2 if ctx.quick else 4
         hist = [(True, bool((si + k) % 2), ["auto", "on", "off"][(si + k) % 3], ["full", "compact"][k % 2], False, "cells:%d" % ((si + k) % 4))
                 for k in range(nh)]
+        # scale dimension: the crystal sc*Phi at displacement distance d (sessions marked `scaled`)
+        scaled = []
+        if s["scaled"]:
+            pairs = list(itertools.product(SCALES, SCALE_DISTS))
+            if ctx.quick:
+                pairs = [(1e-9, 1e-9), (1e-9, 0.3), (1e6, 1e-9), (1e6, 0.3), (1e-6, 1e-3), (1e-6, 0.01), (1e-3, 1e-6),
+                         (1.0, 1e-9), (1e3, 1e-3), (1e-6, 1e-6), (1.0, 0.3), (1e-3, 0.01)]
+            for k, (sc_, d_) in enumerate(pairs):
+                scaled.append((k % 5 != 4, bool(k % 2), ["auto", "on", "off"][k % 3], ["full", "compact"][(k // 2) % 2], False,
+                               ["setter", "dataset", "arg"][k % 3], sc_, d_))
         ptr = None
-        for sym, diag, pm, layout, trig, *hr in combos + hist:
-            dist = next(dist_cycle)
+        for sym, diag, pm, layout, trig, *hr in combos + hist + scaled:
+            dist = hr[2] if len(hr) > 2 else next(dist_cycle)
+            scale = hr[1] if len(hr) > 2 else 1.0
             route = hr[0] if hr else next(route_cycle)
             if route == "file":
                 dist = 0.03
             opts = (sym, diag, pm, layout, dist, trig, route, next(fcc_cycle))
-            run, info, (arr, arr2), devs = record_run(real, cell, s["S"], s["prim"], opts, ref_int, symprec=s["symprec"])
+            run, info, (arr, arr2), devs = record_run(real, cell, s["S"], s["prim"], opts, ref_int, symprec=s["symprec"],
+                                                      scale=scale)
             if "ptrans" in info:
                 if ptr is None:
                     ptr = info["ptrans"]
@@ -510,7 +531,7 @@ def gen_sessions(ctx, only=None):
             all_devs.extend(devs)
             if "history" in info:
                 all_hists.append(info["history"])
-            ctx.count((s["entry"], s["model"], json.dumps(s["S"]), s["pname"], s["mag"], s["symprec"]) + opts)
+            ctx.count((s["entry"], s["model"], json.dumps(s["S"]), s["pname"], s["mag"], s["symprec"], scale) + opts)
             ctx.traces += 1
         # the primitive translations the specification's session uses are those of the primitive matrix the code used
         s["ptrans"] = [list(t) for t in (ptr or [(0, 0, 0)])]
@@ -636,7 +657,7 @@ def load_replay(ctx):
     key, d = rp.get("key", ""), rp.get("detail") or {}
     if key.startswith("session:") or key.startswith("tlc:FiniteDifference"):
         return ("session", dict(entry=d["entry"], model=d["model"], S=[list(r) for r in d["S"]], pname=d.get("primitive") or "P",
-                                nonsym=False, mag=d.get("mag", "none"), symprec=d.get("symprec", 1e-5),
+                                nonsym=False, hom=False, scaled=bool(d.get("scaled", True)), mag=d.get("mag", "none"), symprec=d.get("symprec", 1e-5),
                                 perturb=d.get("perturb", 0.0)))
     if key.startswith("disptrace:") or key.startswith("replay:Displacements"):
         ev = d.get("event") or d
@@ -696,7 +717,7 @@ def run(ctx):
     else:
         sess, infos, devs, hists = gen_sessions(ctx)
     ctx.extra["sessions"] = [dict(entry=s["entry"], model=s["model"], S=s["S"], primitive=s["pname"], natom=s["natom"],
-                                  left_handed=s["left_handed"], mag=s["mag"], symprec=s["symprec"], perturb=s["perturb"],
+                                  left_handed=s["left_handed"], mag=s["mag"], scaled=s["scaled"], hom=s["hom"], symprec=s["symprec"], perturb=s["perturb"],
                                   ptrans=s["ptrans"],
                                   runs=len(s["runs"]), distinct_arrays=len(s["arrays"])) for s in sess]
     resids = [i["resid"] for i in infos.values() if "resid" in i]
@@ -791,7 +812,7 @@ def run(ctx):
         body = ", ".join(c01_ref.session_tla(s, dict(runs=s["runs"], arrays=s["arrays"], ref=s["ref"], nonsym=bool(s["nonsym"])))
                          for s in b)
         mc = ("---- MODULE MC_FDTrace ----\nEXTENDS FiniteDifferenceTrace\nMCSessions == {%s}\nMCPMs == %s\n"
-              "MCDiags == {TRUE, FALSE}\nMCSyms == {TRUE, FALSE}\nMCTrigs == %s\n====\n"
+              "MCDiags == {TRUE, FALSE}\nMCSyms == {TRUE, FALSE}\nMCTrigs == %s\nMCScales == {<<1, 1>>, <<2, 3>>, <<5, 1>>}\n====\n"
               % (body, model_pms, "{FALSE}" if ctx.quick else "{FALSE, TRUE}"))
         res = ctx.tlc("MC_FDTrace", cfg_text=CFG_FDTRACE, extra_files={"MC_FDTrace.tla": mc}, requirement=False,
                       workers=min(workers, max(2, 2 * len(b))), coverage=first, extra_args=("-continue",), timeout=3000)
@@ -829,7 +850,7 @@ def run(ctx):
                                 bad.append(dict(inf["opts"], err=r["err"], maxdiff_rel=inf.get("maxdiff_rel"),
                                                 resid=inf.get("resid"), traceback=inf.get("traceback")))
                         detail["suspect_runs"] = bad[:6]
-                        detail.update(primitive=s["pname"], mag=s["mag"], symprec=s["symprec"], perturb=s["perturb"])
+                        detail.update(primitive=s["pname"], mag=s["mag"], symprec=s["symprec"], perturb=s["perturb"], scaled=s["scaled"])
             if nme in FD_MODEL_REQ:
                 ctx.violation("tlc:FiniteDifference:" + nme, "session model violates %s" % nme, detail)
             elif nme in FD_IMPL:
